@@ -551,6 +551,17 @@ Proof.
   - intros E. rewrite <- HK in E. specialize (HD E). injection HD as ->. reflexivity.
 Qed.
 
+(* "unknown opcode" (the source's default case) exactly on the case codes the table does not have *)
+Theorem vm_step_unknown_iff_not_key L s w :
+  code_at p (pc s) = Some w ->
+  (step e p L s = Crash C_unknown_op <-> eff_is_key (eff_case_code w (mode s)) = false).
+Proof.
+  intros Hw. pose proof (eff_step_spec e p L s w Hw) as [HD HS].
+  rewrite <- (eff_dispatch_key w (mode s)). split.
+  - intros E. rewrite E in HS. apply HS. reflexivity.
+  - exact HD.
+Qed.
+
 (* states that agree on everything the table talks about *)
 Definition eff_eqv (a b : vm) : Prop :=
   pc a = pc b /\ mode a = mode b /\ track a = track b /\ stack a = stack b /\ crawl a = crawl b.
